@@ -11,7 +11,7 @@ CHECKS = {
 CHECKS.update({
     "C01": dict(
         level="exploration",
-        technique="runtime monitor: float64 residual/padding/symmetry/Rayleigh oracle on every observed call of the real inverse-root routines (direct jitted calls on generated PSD matrices)",
+        technique="runtime monitor: float64 residual/padding/symmetry/Rayleigh oracle on every observed call of the real inverse-root routines (direct jitted calls on generated PSD matrices and calls tapped inside real optimizer runs)",
         design_ref="DESIGN.md section 4 C01",
         text="Every call of matrix_inverse_pth_root (Newton, eigh, LOBPCG-deflated) made by the workload is checked in float64: finite, exactly zero padding, symmetric to 8*n*u*kappa, and whenever the reported error is below 0.1 the true residual max|X^p(A+dI)-I| is at most the reported error plus 64*n*p*u*kappa, with d reconstructed from the documented ridge rule (replica of the documented power iteration cross-checked with the reported estimate); reported lambda_max never above the true one. Inputs are sampled inside kappa<=1e8 (1.6k calls quick, ~25k thorough), special families included. Sampling, not proof.",
         note="Trusted: NumPy/LAPACK float64 eigvalsh and matrix_power. Float32 inputs only get the structural clauses. Dishonesty smaller than the slack is invisible.",
@@ -27,7 +27,7 @@ CHECKS.update({
         level="exploration",
         technique="runtime monitor: dense-matrix oracle for pack/unpack (exhaustive over (d,r)), packed application and packed root (float64 eigh reference with spectral-gap guard)",
         design_ref="DESIGN.md section 4 C10",
-        text="pack/unpack are checked to be mutually inverse bitwise for every admissible (d,r), |r|+2<d<=12 (20 thorough), both signs, x64 on and off; Preconditioner.preconditioned_grad with packed preconditioners is compared with tensordot by the dense c(I-VV')+V diag(e)V' on every axis of rank 1..3 gradients (has_zeros => identity); _low_rank_root is compared as a dense matrix with the exact float64 truncated root (top or bottom |r| directions, mean of the rest over unpadded dims) with padding, relative/absolute ridge, p 1..8.",
+        text="pack/unpack are checked to be mutually inverse bitwise for every admissible (d,r), |r|+2<d<=12 (20 thorough), both signs, x64 on and off; Preconditioner.preconditioned_grad with packed preconditioners is compared with tensordot by the dense c(I-VV')+V diag(e)V' on every axis of rank 1..3 gradients (has_zeros => identity); _low_rank_root is compared as a dense matrix with the exact float64 truncated root (top or bottom |r| directions, mean of the rest over unpadded dims) with padding, relative/absolute ridge, p 1..8; in-situ: the packed roots stored by the real optimizer (compression_rank +-1, +-2, statistic sizes 3..9) against the truncated root of the statistics stored in the same state.",
         note="Trusted: NumPy float64 eigh. Cases without a 1e-3 relative spectral gap at the cut are skipped (counted).",
     ),
     "C12": dict(
@@ -64,8 +64,8 @@ CHECKS.update({
         level="fault_enumeration",
         technique="runtime monitor over fault-injected histories: offline acceptance-gate checker on bitwise state diffs and reported errors, all fault words up to length T enumerated per configuration",
         design_ref="DESIGN.md section 4 C03",
-        text="For each of 192 configurations (threshold x epsilon incl. 0 x Newton/eigh x interval x jit/pmap-quantised/sharded x x64 on/off) every word of length 3 (thorough: 5, <=3 faults) over {normal, zero, tiny, huge, overflow, NaN, Inf} gradients is replayed through the real compiled update; after every step each stored preconditioner must be bit-identical to before or be installed on a refresh step with a finite reported error strictly below the threshold, must be finite, and moderate histories must give finite updates. 65k words / 77k steps quick, ~185k NaN rejections and ~17k threshold rejections observed.",
-        note="Exhaustive over the stated alphabet/length/configuration grid only; one fixed two-leaf tree.",
+        text="For each of 192 configurations (threshold x epsilon incl. 0 x Newton/eigh x interval x jit/pmap-quantised/sharded x x64 on/off) plus 72 configurations with other statistic sizes (all 1x1; one 64x64; a padded 1x1 among larger ones) every word of length 3 (thorough: 5, <=3 faults) over {normal, zero, tiny, huge, overflow, NaN, Inf} gradients is replayed through the real compiled update; after every step each stored preconditioner must be bit-identical to before or be installed on a refresh step with a finite reported error strictly below the threshold, must be finite, and moderate histories must give finite updates. 65k words / 77k steps quick, ~185k NaN rejections and ~17k threshold rejections observed.",
+        note="Exhaustive over the stated alphabet/length/configuration grid only; four fixed trees. Two leaks found after a seeding agent's hint (1x1 statistics, -inf error on 64x64 statistics) were repaired in /repo.",
     ),
 })
 CHECKS.update({
@@ -80,7 +80,7 @@ CHECKS.update({
         level="exploration",
         technique="runtime monitor: closed-form grafting steps from the monitor's own accumulators + reference application of the preconditioner stored in the real state (dense reconstruction of packed / quantised forms)",
         design_ref="DESIGN.md section 4 C05",
-        text="With momentum/weight decay off and lr=1 the returned update is minus the pre-momentum update; per leaf and step it is compared with (a) the closed-form graft step before the start step and for skipped/masked leaves, (b) afterwards: norm equal to the graft step's norm and componentwise equal (within the running error bound) to the stored preconditioner applied to the gradient and rescaled, zero when that is zero. distributed_shampoo graft types 1..6 x {full, compressed +r/-r, FD sketch, int16-quantised} x shapes rank 1-4; Tearfree {SGD, RMSProp, AdaFactor, none} x {Shampoo, Sketchy} with masking.",
+        text="With momentum/weight decay off and lr=1 the returned update is minus the pre-momentum update; per leaf and step it is compared with (a) the closed-form graft step before the start step and for skipped/masked leaves, (b) afterwards: norm equal to the graft step's norm and componentwise equal (within the running error bound) to the stored preconditioner applied to the gradient and rescaled, zero when that is zero. distributed_shampoo graft types 1..6 x {full, compressed +r/-r, FD sketch, int16-quantised, sharded} x shapes rank 1-4 x dense/entry-sparse histories; Tearfree {SGD, RMSProp, AdaFactor, none} x {Shampoo, Sketchy} with masking, preconditioner frequency {1,3} and row-sparse histories (exactly-zero directions observed).",
         note="AdaFactor's closed form is optax.adafactor itself (outside the repository). FD runs with x64 off.",
     ),
 })
@@ -96,28 +96,28 @@ CHECKS.update({
         level="exploration",
         technique="runtime monitor: metamorphic oracle (blocked tensor vs its blocks as separate leaves; leaf alone vs with companions) on real updates",
         design_ref="DESIGN.md section 4 C08",
-        text="For generated layouts (1 or 2 blocked axes, ragged last blocks) and per-block gradient scales spanning 1e-6..1e6 the real update of the blocked tensor is compared block by block with the updates obtained when the same blocks are separate leaves (equal without grafting, parallel with one factor when grafting is on), and with the update of the same leaf when companion leaves of other shapes/scales are added; distributed_shampoo (x64 on/off, Newton/eigh, graft NONE/SGD/RMSProp) and Tearfree Shampoo.",
-        note="Relative tolerance 2e-5 (float32 reduction order), 1e-9 for Tearfree under x64; bitwise-equal counts reported.",
+        text="For generated layouts (1 or 2 blocked axes, ragged last blocks) and per-block gradient scales spanning 1e-6..1e6 the real update of the blocked tensor is compared block by block with the updates obtained when the same blocks are separate leaves (equal without grafting, parallel with one factor when grafting is on), and with the update of the same leaf when companion leaves of other shapes/scales are added; and with the same block optimised alone in its own optimizer; distributed_shampoo (x64 on/off, Newton/eigh, graft NONE/SGD/RMSProp, jit / pmap-quantised / sharded) and Tearfree Shampoo.",
+        note="Relative tolerance 2e-5 (float32 reduction order), 1e-9 for Tearfree under x64; bitwise-equal counts reported. distributed_shampoo cases use a relative ridge (statistics must resolve the ridge in float32, DESIGN 2.4 rule 4).",
     ),
     "C09": dict(
         level="exploration",
         technique="runtime monitor: exact-covariance shadow state and PSD-order bracket / escaped-mass recurrence oracle after every frequent-directions step, four drivers",
         design_ref="DESIGN.md section 4 C09",
-        text="The monitor keeps the exact b-discounted covariance (plus the ridge the configuration adds on the sketch span) and after every FD step of (A) _fd_update_root fed by frequent_directions_update, (B) Tearfree Sketchy via its public transformation, (C) the OCO sketches, (D) the packed sketches inside distributed_shampoo state, checks orthonormal-or-zero directions, l,t >= 0, S <= C <= S+tI, t' = b t + rho with rho recomputed independently, zero-gradient and low-rank exactness, stored inverse roots = (l+t+eps)^(-1/p).",
+        text="The monitor keeps the exact b-discounted covariance (plus the ridge the configuration adds on the sketch span) and after every FD step of (A) _fd_update_root fed by frequent_directions_update, (B) Tearfree Sketchy via its public transformation, (C) the OCO sketches, (D) the packed sketches inside distributed_shampoo state (jit and 2-device pmap), checks orthonormal-or-zero directions, l,t >= 0, S <= C <= S+tI, t' = b t + rho with rho recomputed independently, zero-gradient and low-rank exactness, stored inverse roots = (l+t+eps)^(-1/p).",
         note="Driver D on statistics smaller than the batch maximum reproduces a recorded known finding (packed sketch truncated). PSD-order tolerance 1e-10 (float64) / 2e-4 (float32) of ||C||.",
     ),
     "C13": dict(
         level="exploration",
         technique="runtime monitor: cross-run equality oracle over device counts (pmap on D forced host devices, sharded under a D-device mesh) against the single-device run",
         design_ref="DESIGN.md section 4 C13",
-        text="For trees whose number of statistics N covers every residue modulo D, the real update is run under jax.pmap on D = 1..8 devices (full / int16-quantised / compressed / eigh) and under a D-device mesh in sharded mode; every device's updates and complete final state must equal device 0's and the D=1 run (bitwise in most leaves; 2e-5 relative fallback, max observed 2.4e-7).",
+        text="For trees whose number of statistics N covers every residue modulo D, the real update is run under jax.pmap on D = 1..8 devices (full / int16-quantised / compressed / eigh / frequent-directions / with an always-rejected leaf) and under a D-device mesh in sharded mode; every device's updates and complete final state must equal device 0's and the D=1 run (bitwise in most leaves; 2e-5 relative fallback; rounding-noise diagnostics compared absolutely or not at all).",
         note="Forced host-platform CPU devices; D exhaustive in 1..8; N in {1,2,3,5,7,12} quick, 14 values up to 29 thorough.",
     ),
     "C14": dict(
         level="fault_enumeration",
         technique="runtime monitor over crash points: every interruption step is resumed in a fresh interpreter from flax-serialized state and compared bitwise with the uninterrupted run",
         design_ref="DESIGN.md section 4 C14",
-        text="For 14 optimizer variants (distributed_shampoo full/eigh/pmap-quantised/compressed +-/FD/RMSProp+schedule/sharded/AdaGrad, sm3 with and without momentum, Tearfree Shampoo/Sketchy/RMSProp graft) x 2 seeds, state_k is serialized after every k in 0..T and restored into a freshly constructed optimizer in a new process; all later updates and the final state must be bit-identical and the restored tree must have the template's structure. 196 fresh-process resumes quick (~900 thorough).",
+        text="For 17 optimizer variants (distributed_shampoo full/eigh/pmap-quantised/compressed +-/FD/RMSProp+schedule/sharded/AdaGrad, sm3 with and without momentum, Tearfree Shampoo/Sketchy/RMSProp graft, and three un-jitted variants where Python-side hidden state would act at every call) x 2 seeds, state_k is serialized after every k in 0..T and restored into a freshly constructed optimizer in a new process; all later updates and the final state must be bit-identical and the restored tree must have the template's structure. 238 fresh-process resumes quick (~1100 thorough).",
         note="Same machine and XLA build; serialization = flax.serialization.to_bytes/from_bytes.",
     ),
     "C15": dict(
